@@ -577,17 +577,18 @@ impl PoolMap {
     // `cell_ref_parents` may be invalidate when the tx consuming the cell is submitted
     fn get_tx_ancenstors(
         &self,
-        entry: &TransactionView,
+        entry: &TxEntry,
     ) -> (
         HashSet<ProposalShortId>,
         HashSet<ProposalShortId>,
         HashSet<ProposalShortId>,
     ) {
+        let tx = entry.transaction();
         let mut parents: HashSet<ProposalShortId> =
-            HashSet::with_capacity(entry.inputs().len() + entry.cell_deps().len());
+            HashSet::with_capacity(tx.inputs().len() + tx.cell_deps().len());
         let mut cell_ref_parents: HashSet<ProposalShortId> = Default::default();
 
-        for input in entry.inputs() {
+        for input in tx.inputs() {
             let input_pt = input.previous_output();
             if let Some(deps) = self.edges.deps.get(&input_pt) {
                 cell_ref_parents.extend(deps.iter().cloned());
@@ -599,8 +600,8 @@ impl PoolMap {
                 parents.insert(id);
             }
         }
-        for cell_dep in entry.cell_deps() {
-            let dep_pt = cell_dep.out_point();
+        // every cell the transaction depends on, the members of its dep groups included
+        for dep_pt in entry.related_dep_out_points() {
             let id = ProposalShortId::from_tx_hash(&dep_pt.tx_hash());
             if self.links.inner.contains_key(&id) {
                 parents.insert(id);
@@ -650,8 +651,7 @@ impl PoolMap {
         &mut self,
         entry: &mut TxEntry,
     ) -> Result<HashSet<TxEntry>, Reject> {
-        let tx = entry.transaction();
-        let (ancestors, mut parents, cell_ref_parents) = self.get_tx_ancenstors(tx);
+        let (ancestors, mut parents, cell_ref_parents) = self.get_tx_ancenstors(entry);
 
         let mut ancestors_count = ancestors.len() + 1;
         let mut evicted = Default::default();
